@@ -227,8 +227,9 @@ class BaseProperty(base.BaseObject):
 
         # Make sure name cannot be set to None or empty
         if not new_name:
-            self._name = self._id
-            return
+            new_name = self._id
+            if self.name == new_name:
+                return
 
         curr_parent = self.parent
         if hasattr(curr_parent, "properties") and new_name in curr_parent.properties:
